@@ -190,6 +190,9 @@ Definition op_obs := (N * bytes * list ckentry)%type.
 Inductive sp_case :=
 | SpFiles (ops : list op_obs) (artifact after : list bytes) (restored : bool)
 | SpFold (pending_before : bool) (pending_id : N) (counter_before : N) (ret : sres) (counter_after : N) (still_pending_id : N)
+| SpOutcome (fault published : bool)
+   (* fault = the copy of one referenced DKV file into the artifact failed with "not found" (injected);
+      published = the savepoint id resolves to a URI after every gated write was released *)
 | SpStarts (pending_before : bool) (counter_before : N) (starts : list N).
    (* the StartCheckpoint calls a source runner received from the job while the savepoint's checkpoint was taken:
       the periodic tick (when pending_before) followed by the savepoint request *)
@@ -253,6 +256,12 @@ Definition check_sp (c : sp_case) : list N :=
        else
          (match ret with RId i true => if (i =? counter_before + 1) && (counter_after =? i) then [] else [135]
                     | _ => [135] end))
+  | SpOutcome fault published =>
+      (* model: sp_create fails exactly when a copy fails (copy_all = None), otherwise the artifact is written *)
+      (if Bool.eqb published (negb fault) then [] else [34]) ++
+      (* spec: an incomplete savepoint is never published; an accepted request without a fault yields an artifact *)
+      (if fault && published then [137] else []) ++
+      (if negb fault && negb published then [138] else [])
   | SpStarts pending_before counter_before starts =>
       let s0 := mkSt counter_before None [] in
       let '(s1, _, st1) := if pending_before then job_tick s0 [0] else (s0, RErr, []) in
